@@ -4,6 +4,7 @@ package streams
 import (
 	"bufio"
 	"fmt"
+	"os"
 	"sort"
 	"strconv"
 	"strings"
@@ -209,6 +210,10 @@ func (h *hostRunner) next(choice int) (result string) {
 	case err == ysgo.ErrWaitingForCommandCompletion:
 		return "WAIT"
 	case err != nil:
+		if errText {
+			// (only for comparisons of the implementation with itself: the text of the error belongs to the run)
+			return "ERR " + obs.Esc(err.Error())
+		}
 		return "ERR"
 	case el == nil:
 		return "END"
@@ -223,6 +228,9 @@ func (h *hostRunner) next(choice int) (result string) {
 		return "O|" + obs.Esc(el.Node) + "|" + strings.Join(parts, "~")
 	}
 }
+
+// errText: print the message of errors too (VERIF_ERRTEXT=1)
+var errText = os.Getenv("VERIF_ERRTEXT") == "1"
 
 func (h *hostRunner) state() string {
 	snap := h.dr.Snapshot()
